@@ -108,6 +108,9 @@ def build(E, tier):
     n0 = len(E.obligations)
     pm.verify_pooled_client(E, methods=pm.KEYED)
     E.obligations[n0:] = [o for o in E.obligations[n0:] if o.id.startswith("C20/")]
+    # key_prefix / allow_unicode_keys read by check_key are the constructor's arguments (a str prefix is stored as its ASCII bytes)
+    from . import clientmodel as cm
+    cm.verify_client_ctor(E, "C20")
 
 
 def forwarding(E):
